@@ -16,7 +16,7 @@ def scene_for(chk, MX, multi, wind):
     acs = []
     for k in range(2 if multi else 1):
         ac = gen.simple_wing_aircraft(N=3, b=rng.uniform(3, 5), sweep=rng.choice([None, 10.0]), reid=rng.random() < 0.5)
-        st = gen.gen_state(rng, chk.hist, ang=5.0, rate_frames=("body",))
+        st = gen.gen_state(rng, chk.hist, ang=5.0, rate_frames=("body", "body", "stab", "wind"))
         if multi:
             st["position"] = [rng.uniform(-20, 20), k * rng.uniform(15, 30), rng.uniform(-500, -10)]
         cs = {"aileron": round(rng.uniform(-4, 4), 2), "rudder": round(rng.uniform(-4, 4), 2), "elevator": round(rng.uniform(-4, 4), 2)}
@@ -30,7 +30,7 @@ def side_effect_sweep(chk, MX, n):
     done = 0
     while done < n:
         an = names[done % len(names)]
-        multi = rng.random() < 0.3 and an not in api.SINGLE_ONLY
+        multi = (an in api.MULTI_PREFERRED and rng.random() < 0.8) or (rng.random() < 0.3 and an not in api.SINGLE_ONLY)
         wind = rng.random() < 0.6
         sd, acs = scene_for(chk, MX, multi, wind)
         done += 1
@@ -152,7 +152,7 @@ def run(chk):
     MX.helpers = H
     chk.proofs(extra_trusted=["sweep: aircraft state (velocity, rates, pose, controls, flap deflections) and solve_forces before/after every analysis",
                               "oracles: solve_forces treated as a function of the scene state"])
-    side_effect_sweep(chk, MX, chk.q(36, 360))
+    side_effect_sweep(chk, MX, chk.q(80, 400))
     set_state_sweep(chk, MX, chk.q(9, 90))
     return chk.finish(rule="each query-type analysis on generated scenes (1-2 aircraft, wind in 60 %, random attitude, non-zero controls): state of every "
                            "aircraft and solve_forces before vs after; each trim with set state: state after = returned values, other controls, airspeed, "
